@@ -70,6 +70,16 @@ def run(ctx):
     want = {"TSK_CMP_IGNORE_TS_METADATA", "TSK_CMP_IGNORE_PROVENANCE", "TSK_CMP_IGNORE_REFERENCE_SEQUENCE"}
     ctx.ob(rule, "shared-equality|options", flags == want, tu.loc(eq[0][1]) if eq else tu.loc(fe.node),
            "shared portions are compared ignoring exactly top-level metadata, provenance and the reference sequence (found %s)" % sorted(flags))
+    # the two node lists that define the shared portions are filled pairwise: self's from the mapping, other's with the loop id
+    esrc = " ".join(tu.src(fe.body).split())
+    ok_self = re.search(r"self_nodes\[(\w+)\] = other_node_mapping\[(\w+)\]", esrc)
+    ok_other = re.search(r"other_nodes\[(\w+)\] = (\w+);", esrc)
+    pair_ok = bool(ok_self and ok_other and ok_self.group(1) == ok_other.group(1) and ok_self.group(2) == ok_other.group(2)
+                   and ok_other.group(1) != ok_other.group(2))
+    ctx.ob(rule, "shared-equality|node-lists", pair_ok, tu.loc(fe.node),
+           "self_nodes[i] = other_node_mapping[k] is paired with other_nodes[i] = k" if pair_ok else
+           "the shared node lists are not filled pairwise (%s / %s): other's shared portion is subset on the wrong nodes"
+           % (ok_self.group(0) if ok_self else "?", ok_other.group(0) if ok_other else "?"))
     # individuals reachable through SHARED nodes are mapped onto self's individuals before any new node is added
     loops = [x for x in walk(fn.body) if x.k == "ForStmt"]
     adds = FE and [n_ for c_, a_, n_ in F.calls if c_ == "tsk_table_collection_add_and_remap_node"]
